@@ -874,3 +874,37 @@ example : checkTaskV ["sensing"] "sensing" = .ok (.member "EvaluationTask" "SENS
     checkTaskV ["sensing", "x"] "x" = .ok .none ∧ checkTaskV ["sensing"] "detection" = .error "ValueError" := by decide
 
 end PEval.C20
+
+/-! ## ties to two more regenerated tables: `FrameID.from_task` per member, and the printed form of every member -/
+namespace PEval.C20
+open PEval.Enums
+
+/-- the hand-written branch structure of `FrameID.from_task` answers, for EVERY task member, what the running code
+answers (tables `Gen.taskFrameOk` / `Gen.taskFrameRaise` are produced by calling the real `from_task` on every run),
+and the two tables together cover every member exactly once -/
+theorem fromTask_agrees_with_source :
+    (∀ p ∈ Gen.taskFrameOk, frameFromTaskV (.member "EvaluationTask" p.1) = .ok (.member "FrameID" p.2)) ∧
+    (∀ p ∈ Gen.taskFrameRaise, frameFromTaskV (.member "EvaluationTask" p.1) = .error p.2) ∧
+    (Gen.taskFrameOk.map (·.1) ++ Gen.taskFrameRaise.map (·.1)).Perm (Gen.evaluationTask.map (·.1)) := by
+  refine ⟨by decide +kernel, by decide +kernel, by decide +kernel⟩
+
+/-- "parsing the printed form of a member gives the member back": `str(member)` (regenerated on every run) parses to
+that very member, for every member of every configuration enum that prints its value -/
+theorem printed_form_parses_back :
+    (∀ p ∈ Gen.evaluationTaskPrinted, taskFromValueV p.2 = .ok (.member "EvaluationTask" p.1)) ∧
+    (∀ p ∈ Gen.frameIDPrinted, frameFromValueV p.2 = .ok (.member "FrameID" p.1)) ∧
+    (∀ p ∈ Gen.visibilityPrinted, visibilityFromValueV p.2 = .ok (.member "Visibility" p.1)) ∧
+    (∀ p ∈ Gen.sensorModalityPrinted, sensorFromValueV p.2 = .ok (.member "SensorModality" p.1)) ∧
+    (∀ p ∈ Gen.shapeTypePrinted, shapeTypeFromValueV p.2 = .ok (.member "ShapeType" p.1)) := by
+  refine ⟨by decide +kernel, by decide +kernel, by decide +kernel, by decide +kernel, by decide +kernel⟩
+
+/-- the printed-form tables list every member (so the theorem above is about all of them) -/
+theorem printed_tables_complete :
+    Gen.evaluationTaskPrinted.map (·.1) = Gen.evaluationTask.map (·.1) ∧
+    Gen.frameIDPrinted.map (·.1) = Gen.frameID.map (·.1) ∧
+    Gen.visibilityPrinted.map (·.1) = Gen.visibility.map (·.1) ∧
+    Gen.sensorModalityPrinted.map (·.1) = Gen.sensorModality.map (·.1) ∧
+    Gen.shapeTypePrinted.map (·.1) = Gen.shapeType.map (·.1) := by
+  refine ⟨by decide +kernel, by decide +kernel, by decide +kernel, by decide +kernel, by decide +kernel⟩
+
+end PEval.C20
